@@ -79,6 +79,16 @@ def templates(rng, thorough):
         W = IR.normalize_node(dict(name="W", kind="func", inputs=["x"], outputs=["w"], wait_for=["s_early_0"]))
         nodes = [E, M, L, W] if order == 0 else [W, L, M, E]
         out.append((IR.prog("top", nodes), [["x", "in.x"]], f"dag/renamed-signals-cross/o{order}"))
+    # SEVERAL waiters of one signal whose data input first appears in the second loop iteration, together with the value that
+    # makes the producer ready again (the signal of the first iteration is still there): all of them are held back
+    for nw in (2, 3):
+        for order in (0, 1):
+            C = IR.normalize_node(dict(name="compute", kind="func", inputs=["x"], outputs=["y", "computed"], ndata=1))
+            M = IR.route("more", ["y"], ["bump", "END"], [["bump"], ["bump"], ["END"]])
+            Bm = IR.func("bump", ["y"], ["x", "z"])
+            ws = [IR.normalize_node(dict(name=f"audit{i}", kind="func", inputs=["z"], outputs=[f"au{i}"], wait_for=["computed"])) for i in range(nw)]
+            nodes = (ws + [C, M, Bm]) if order == 0 else ([C, M, Bm] + ws)
+            out.append((IR.prog("top", nodes, max_iter=30), [["x", "in.x"]], f"late-waiters-loop/w{nw}/o{order}"))
     # a gate that emits, a waiter on it
     for dopen in (True, False):
         A = IR.func("A", ["x"], ["a"])
